@@ -38,10 +38,11 @@ type fidCfg struct {
 	wview  bool // frames handed to Write are views at offset 1 of a larger allocation
 	dview  bool // destination frames are views [1,1+L) of a 6-row allocation (else exactly L rows)
 	reader int  // 0: bytes.Reader (an io.ByteReader), 1: plain io.Reader returning one byte per call
+	reuse  bool // destinations keep what earlier Reads left in them (else re-filled with sentinels before every Read)
 }
 
 func (c fidCfg) String() string {
-	return fmt.Sprintf("(phase %d, writer view %v, dst view %v, reader %d)", c.phase, c.wview, c.dview, c.reader)
+	return fmt.Sprintf("(phase %d, writer view %v, dst view %v, reader %d, dst reused %v)", c.phase, c.wview, c.dview, c.reader, c.reuse)
 }
 
 type fidUnit struct {
@@ -61,12 +62,13 @@ func allKinds() []kind {
 func fidelityUnits(thorough bool) (units []fidUnit, rule string) {
 	all := allKinds()
 	// one representative per encode/decode path
-	rep8 := []kind{kInt, kString, kGob, kPtr, kCustom, kArr, kBytes, kBool}
-	rep4 := []kind{kInt, kString, kCustom, kPtr}
+	rep8 := []kind{kInt, kString, kGob, kPtr, kCustom, kArr, kBytes, kBool, kS3}
+	rep4 := []kind{kInt, kString, kCustom, kPtr, kS2}
 	F, T := false, true
-	singles := []fidCfg{{0, F, F, 0}, {0, F, T, 0}, {0, T, F, 0}, {0, T, T, 0}, {0, F, F, 1}, {1, T, T, 0}, {2, F, T, 0}}
-	pairCfg := []fidCfg{{0, F, F, 0}, {0, T, T, 0}}
-	tripCfg := []fidCfg{{0, T, T, 0}}
+	singles := []fidCfg{{0, F, F, 0, F}, {0, F, T, 0, F}, {0, T, F, 0, F}, {0, T, T, 0, F}, {0, F, F, 1, F}, {1, T, T, 0, F}, {2, F, T, 0, F},
+		{0, F, F, 0, T}, {1, F, T, 0, T}}
+	pairCfg := []fidCfg{{0, F, F, 0, F}, {0, T, T, 0, T}}
+	tripCfg := []fidCfg{{0, T, T, 0, T}}
 	pairs, triples := rep8, rep4
 	if thorough {
 		singles = nil
@@ -74,13 +76,14 @@ func fidelityUnits(thorough bool) (units []fidUnit, rule string) {
 			for _, wv := range []bool{F, T} {
 				for _, dv := range []bool{F, T} {
 					for rk := 0; rk < 2; rk++ {
-						singles = append(singles, fidCfg{ph, wv, dv, rk})
+						singles = append(singles, fidCfg{ph, wv, dv, rk, (ph+rk)%2 == 1})
 					}
 				}
 			}
 		}
-		pairCfg = []fidCfg{{0, F, F, 0}, {0, T, T, 0}, {1, F, T, 0}, {1, T, F, 0}}
-		tripCfg = []fidCfg{{0, T, T, 0}, {1, F, F, 0}}
+		singles = append(singles, fidCfg{0, F, F, 0, T}, fidCfg{0, F, T, 0, T}, fidCfg{2, T, T, 0, T})
+		pairCfg = []fidCfg{{0, F, F, 0, F}, {0, T, T, 0, T}, {1, F, T, 0, F}, {1, T, F, 0, T}}
+		tripCfg = []fidCfg{{0, T, T, 0, T}, {1, F, F, 0, F}}
 		pairs, triples = all, rep8
 	}
 	for _, k := range all {
@@ -100,10 +103,11 @@ func fidelityUnits(thorough bool) (units []fidUnit, rule string) {
 	}
 	rule = fmt.Sprintf("fidelity: for each column-type combination (1 column: all %d kinds, configurations %v; "+
 		"2 columns: all ordered pairs over %d kinds, configurations %v; 3 columns: all ordered triples over %d kinds, configurations %v; "+
-		"configuration = (value phase, writer frames are views at offset 1, destination frames are views [1,1+L) of 6 rows instead of exactly-sized allocations, reader 0=bytes.Reader 1=one-byte plain io.Reader)) "+
-		"x every batch-length sequence over {0,1,2,3} of 0..3 batches (85) x every cyclic destination-length pattern over {1,2,3,4} of period 1..3 (84); "+
+		"configuration = (value phase, writer frames are views at offset 1, destination frames are views [1,1+L) of 6 rows instead of exactly-sized allocations, reader 0=bytes.Reader 1=one-byte plain io.Reader, "+
+		"destination allocations reused across Reads with what earlier Reads left in them instead of re-filled with sentinels before every Read)) "+
+		"x every batch-length sequence over {0,1,2,3} of 0..3 batches (85) plus [4,9], [9,4], [6,6], [5,2,5] x every cyclic destination-length pattern over {1,2,3,4} of period 1..3 (84); "+
 		"row g of column c holds dom[(g+c+phase) mod |dom|], |dom| in 2..4; "+
-		"every Read is checked (0<=n<=len, rows equal the reference, all other rows of the destination allocation still sentinels), then EOF, then one more Read. "+
+		"every Read is checked (0<=n<=len, rows equal the reference, all other rows of the destination allocation as they were before the call), then EOF, then one more Read. "+
 		"Non-trivial fidelity case = some batch was longer than the destination offered when it was fetched (buffered path). ",
 		len(all), singles, len(pairs), pairCfg, len(triples), tripCfg)
 	return
@@ -149,6 +153,7 @@ func main() {
 		units, frule := fidelityUnits(r.Thorough())
 		rule += frule
 		batchSeqs := seqs([]int{0, 1, 2, 3}, 0, 3)
+		batchSeqs = append(batchSeqs, []int{4, 9}, []int{9, 4}, []int{6, 6}, []int{5, 2, 5})
 		dstSeqs := seqs([]int{1, 2, 3, 4}, 1, 3)
 		var st fidStats
 		var skipped int64
@@ -190,7 +195,7 @@ func main() {
 						continue
 					}
 					for _, ds := range dstSeqs {
-						if f := readBack(e, d, ds, cfg.dview, cfg.reader, &st); f != nil {
+						if f := readBack(e, d, ds, cfg.dview, cfg.reuse, cfg.reader, &st); f != nil {
 							outcomes.Add("fidelity VIOLATION " + f.oracle)
 							r.Violate("C07/fidelity/"+f.oracle,
 								fmt.Sprintf("round trip of columns (%s), batches %v, destination lengths %v %s: %s", u.c, bs, ds, cfg, f.oracle), f.detail)
@@ -210,6 +215,7 @@ func main() {
 		cov["fidelity_round_trips"] = st.decodes
 		cov["fidelity_reads_checked"] = st.reads
 		cov["fidelity_round_trips_through_buffered_path"] = st.buffered
+		cov["fidelity_round_trips_with_reused_destinations"] = st.reused
 		fmt.Printf("fidelity: %d combos, %d streams, %d round trips (%d buffered), %d reads, %.1fs\n", len(units), encodes, st.decodes, st.buffered, st.reads, r.Elapsed().Seconds())
 	}
 
